@@ -75,7 +75,8 @@ SweepValuesOK(W) ==
   CASE T.kind = "VI"   -> IsBackup(M, W, V)
     [] T.kind = "PVI"  -> IsBackup(M, W, V)
     [] T.kind = "RVI"  -> IsBackupUpToConstant(M, W, V)
-    [] T.kind = "SAVI" -> IsPermutation(Ev.perm, M.ns) /\ IsGSSweep(M, T.layout, Ev.perm, W, V)
+    [] T.kind = "SAVI" -> IsPermutation(Ev.perm, M.ns) /\ IsInverse(Ev.perm, Ev.pinv, M.ns)
+                          /\ IsGSSweepInv(M, T.layout, Ev.pinv, W, V)
 
 MeasureOK(W) ==
   CASE T.kind \in {"VI", "SAVI"} -> Ev.cok /\ Ev.c = Measure(T.test, W, V, M.ns)
@@ -95,6 +96,8 @@ Sweep ==
      ELSE IF ~Ev.vok THEN Reject("sweep: values are not exactly representable (rounding, wrong precision or wrong arithmetic)")
      ELSE IF T.kind = "SAVI" /\ ~IsPermutation(Ev.perm, M.ns)
        THEN Reject("sweep: the update order is not a permutation of all states")
+     ELSE IF T.kind = "SAVI" /\ ~IsInverse(Ev.perm, Ev.pinv, M.ns)
+       THEN Reject("MACHINERY: the inverse permutation supplied by the harness is not the inverse")
      ELSE IF T.kind = "SAVI" /\ Len(Ev.permref) > 0 /\ Ev.perm # Ev.permref
        THEN Reject("sweep: update order not reproducible from random_seed")
      \* (not in runs resumed from a checkpoint by a new instance: the key is not checkpointed, the chain restarts)
